@@ -16,7 +16,7 @@ func jsonMarshal(v any) ([]byte, error)    { return json.Marshal(v) }
 // See /verif/DESIGN.md section 3.
 var properties = map[string]*Property{
 	"C01": {
-		Rules:      []string{"R-HINT", "R-CTXTYPE", "R-TABLES", "R-CTX-MIRROR", "R-NAMECMP", "R-CTX-KEYS", "R-LIFECYCLE", "R-MODE-ORDER"},
+		Rules:      []string{"R-HINT", "R-CTXTYPE", "R-TABLES", "R-CTX-MIRROR", "R-NAMECMP", "R-CTX-KEYS", "R-LIFECYCLE", "R-MODE-ORDER", "R-PAYLOAD-MIRROR"},
 		Decided:    "the advisory size hint cannot steer which data is encoded (non-interference: hint-derived values reach no branch, loop bound, index or slice bound of the Writer data path); every context key is stored with the type every consumer asserts (no configuration accepted at construction can fail a type assertion at the first block); every codec name accepted at construction has a constructor case in every factory. Encode and decode tasks publish the same context keys (block size for the transform stage, post-transform size for the entropy stage) before creating their codecs. Every context key a codec constructor consults is published on the writing side and on both reading sides, so both build the same codec variant; an empty input still produces a framed stream (header before the empty-buffer return). In the block tasks the codecs are built from the task's transform/entropy type only after its last assignment.",
 		NotDecided: "byte equality of the round trip, codec correctness, buffer sizing, expansion bounds.",
 	},
@@ -26,13 +26,13 @@ var properties = map[string]*Property{
 		NotDecided: "hash collision freedom; that returned bytes equal the original.",
 	},
 	"C03": {
-		Rules:      []string{"R-GOREC", "R-PANIC-API", "R-CLI-REC", "R-CANCEL", "R-ALLOC-GUARD", "R-ERRSTATE", "R-DIV-GUARD"},
-		Decided:    "every library goroutine installs a recover before it can panic; no declared panicking bitstream operation or explicit panic is reachable from the Reader API without crossing a recovering frame; CLI entry points run under runWithRecovery; spin waits have a cancel exit and yield; data-derived allocation sizes on the decode path are bounded. A header field that is later used as a divisor is range-checked on every path of the header parser that reports success (no division by zero from a forged header).",
+		Rules:      []string{"R-GOREC", "R-PANIC-API", "R-CLI-REC", "R-CANCEL", "R-ALLOC-GUARD", "R-ERRSTATE", "R-DIV-GUARD", "R-PIDX-RANGE", "R-TOKEN"},
+		Decided:    "every library goroutine installs a recover before it can panic; no declared panicking bitstream operation or explicit panic is reachable from the Reader API without crossing a recovering frame; CLI entry points run under runWithRecovery; spin waits have a cancel exit and yield; data-derived allocation sizes on the decode path are bounded. A header field that is later used as a divisor is range-checked on every path of the header parser that reports success (no division by zero from a forged header). The multi-chunk inverse BWT range-checks every primary index before its chunk decoders use them (a forged index made them spin forever: F12). Task ids are computed from the counter value of the current batch iteration (a stale base makes every task of a repeated batch wait forever).",
 		NotDecided: "termination within a time bound; implicit runtime panics (index/nil) raised in the calling goroutine outside a recovering frame.",
 	},
 	"C04": {
-		Rules:      []string{"R-NONDET", "R-JOBS-INERT", "R-TOKEN", "R-OWN", "R-HASH-PURE", "R-HINT", "R-BLOCK-BOUND", "R-JOBS-WIRE"},
-		Decided:    "no nondeterministic API is reachable from the encode path; the per-task job count is unobservable in the forward direction; bytes are appended to the shared stream only while holding the hand-off token; tasks share no mutable state outside the protocol; the size hint does not steer the data path. The encode task reads its reused input slot only within the current block length. In the Writer the job count reaches no field that the header writer puts on the wire and decides no branch or loop around their assignment (block size and header fields are independent of the job count).",
+		Rules:      []string{"R-NONDET", "R-JOBS-INERT", "R-TOKEN", "R-OWN", "R-HASH-PURE", "R-HINT", "R-BLOCK-BOUND", "R-JOBS-WIRE", "R-WRITE-PARTITION"},
+		Decided:    "no nondeterministic API is reachable from the encode path; the per-task job count is unobservable in the forward direction; bytes are appended to the shared stream only while holding the hand-off token; tasks share no mutable state outside the protocol; the size hint does not steer the data path. The encode task reads its reused input slot only within the current block length. In the Writer the job count reaches no field that the header writer puts on the wire and decides no branch or loop around their assignment (block size and header fields are independent of the job count). Write only measures and copies the caller's slice (nothing else can make the output depend on the Write partition); header fields are assigned in the constructor only.",
 		NotDecided: "independence from the partition into Write calls (index arithmetic in Writer.Write).",
 	},
 	"C05": {
@@ -41,7 +41,7 @@ var properties = map[string]*Property{
 		NotDecided: "cursor arithmetic of Reader.Read (consumed/available/bufferThreshold).",
 	},
 	"C06": {
-		Rules:      []string{"R-REFILL", "R-READ-FULL", "R-EOF-AT-END", "R-STALE-SLOT"},
+		Rules:      []string{"R-REFILL", "R-READ-FULL", "R-EOF-AT-END", "R-STALE-SLOT", "R-WRITE-PARTITION"},
 		Decided:    "source-side clause only: the input bitstream refills its buffer completely (loop or io.ReadFull) so a partial 64-bit word can only occur at end of source, the invariant every bulk read path relies on. Reader.Read returns a short count without error only when the stream ended (the decompressor treats a short read as end of data); every exit of the refill loop is decided by bytes obtained vs requested or by an error. Read answers io.EOF only after the batch function ran in that call and delivered nothing (a zero-length or buffered read never reports end of stream). No buffer index or offset computed before a batch call is reused after it (a Write or Read call that spans a batch boundary addresses the right block buffer).",
 		NotDecided: "Write/Read buffer-length independence (arithmetic); sink-side chunking.",
 	},
@@ -51,8 +51,8 @@ var properties = map[string]*Property{
 		NotDecided: "fairness/timing (\"promptly\"); memory-model subtleties beyond all accesses being sync/atomic.",
 	},
 	"C08": {
-		Rules:      []string{"R-PANIC-API", "R-IOERR", "R-EOS-ERR", "R-CLOSE-ORDER", "R-POISON", "R-ERRSTATE", "R-REFILL", "R-SKIP-ORDER"},
-		Decided:    "no declared bitstream panic escapes the Writer/Reader API; no error of the underlying sink/source is dropped; a source error is never turned into a clean end of stream by the refill; closed flags are set only after successful flush/close; a failed write batch cannot be followed by a successful Close. A block is classified as skipped only after its payload was read, so a source failure inside a skipped block is still an error.",
+		Rules:      []string{"R-PANIC-API", "R-IOERR", "R-EOS-ERR", "R-CLOSE-ORDER", "R-POISON", "R-ERRSTATE", "R-REFILL", "R-SKIP-ORDER", "R-CANCEL"},
+		Decided:    "no declared bitstream panic escapes the Writer/Reader API; no error of the underlying sink/source is dropped; a source error is never turned into a clean end of stream by the refill; closed flags are set only after successful flush/close; a failed write batch cannot be followed by a successful Close. A block is classified as skipped only after its payload was read, so a source failure inside a skipped block is still an error. The exit handlers turn every recovered panic – whatever its dynamic type – into a task error.",
 		NotDecided: "counter restoration arithmetic in DefaultOutputBitStream.Close.",
 	},
 	"C09": {
@@ -66,13 +66,13 @@ var properties = map[string]*Property{
 		NotDecided: "algorithmic changes that keep every constant; tables computed at init; encoder-only changes.",
 	},
 	"C11": {
-		Rules:      []string{"R-SKIP-ORDER", "R-SKIP-RANGE", "R-ERRSTATE", "R-COMPACT", "R-BATCH-ONLY"},
-		Decided:    "skipped blocks consume their bytes and pass the token before the range test, are never decoded nor delivered; block ids are compared with from/to as the half-open interval [from,to); all-skipped batches are refilled. The slot cursor of the result compaction advances only for non-skipped blocks. The range bounds reach the skip test un-narrowed (also when carried in task fields); the batch function never concludes 'past the end' from header counts.",
+		Rules:      []string{"R-SKIP-ORDER", "R-SKIP-RANGE", "R-ERRSTATE", "R-COMPACT", "R-BATCH-ONLY", "R-OWN"},
+		Decided:    "skipped blocks consume their bytes and pass the token before the range test, are never decoded nor delivered; block ids are compared with from/to as the half-open interval [from,to); all-skipped batches are refilled. The slot cursor of the result compaction advances only for non-skipped blocks. The range bounds reach the skip test un-narrowed (also when carried in task fields); the batch function never concludes 'past the end' from header counts. Only tasks advance or cancel the shared block counter (a parent-side fast path over skipped blocks must not).",
 		NotDecided: "mapping of block k to byte offsets; cursor compaction arithmetic.",
 	},
 	"C12": {
-		Rules:      []string{"R-FACTORY-PAIR", "R-WIRE"},
-		Decided:    "for each entropy code the encoder and decoder factories build the same codec family with the same constant arguments and the same predictor constructor; shared constants of the entropy package keep their format-6 values.",
+		Rules:      []string{"R-FACTORY-PAIR", "R-WIRE", "R-PAYLOAD-MIRROR"},
+		Decided:    "for each entropy code the encoder and decoder factories build the same codec family with the same constant arguments and the same predictor constructor; shared constants of the entropy package keep their format-6 values. For the static-model codecs (Huffman, ANS, Range) encoder and decoder agree, for every number of symbols and order, on whether a chunk carries payload bits after its statistics header (finite decision table compared on both sides).",
 		NotDecided: "arithmetic-coder exactness, bit-exact consumption.",
 	},
 	"C13": {
